@@ -54,6 +54,9 @@ private:
 
     void check_argument() const
     {
+        if (m_matrix_operator.rows() != m_matrix_operator.cols())
+            throw std::invalid_argument("the matrix operation must represent a square matrix");
+
         if (m_number_eigenvalues < 1 || m_number_eigenvalues > m_matrix_operator.cols() - 1)
             throw std::invalid_argument("nev must satisfy 1 <= nev <= n - 1, n is the size of matrix");
     }
